@@ -418,7 +418,14 @@ impl AsnDefWriter {
                 Self::write_common_constraint_type(
                     scope,
                     constraint_type_name,
-                    field.tag.unwrap_or(Tag::DEFAULT_SEQUENCE_OF),
+                    field.tag.or_else(|| inner.tag()).unwrap_or_else(|| {
+                        panic!(
+                            "Default type {}::{} requires a tag for {}",
+                            name,
+                            field.name(),
+                            constraint_type_name
+                        )
+                    }),
                 );
                 Self::write_default_constraint(scope, constraint_type_name, inner, default);
 
